@@ -92,7 +92,8 @@ class Source:
                     if isinstance(b, ast.Name):
                         bases.append(b.id)
                     elif isinstance(b, ast.Attribute):
-                        bases.append(b.attr)
+                        # a base from another module: keep it distinct from a local class of the same name
+                        bases.append(ast.unparse(b))
                 methods = {m.name: m for m in n.body if isinstance(m, ast.FunctionDef)}
                 res[n.name] = {'bases': bases, 'methods': methods, 'node': n, 'file': relfile}
         return res
